@@ -79,8 +79,8 @@ def py_rect_maxvol(
     row_norm_sqr = np.array(
         [chosen[i] * np.linalg.norm(C[i], 2) ** 2 for i in range(top_k_index)]
     )
-    # find maximum value in row_norm_sqr
-    i = np.argmax(row_norm_sqr)
+    # find maximum value in row_norm_sqr (among rows not chosen yet)
+    i = np.argmax(np.where(chosen > 0, row_norm_sqr, -1.0))
     K = r
     # set cgeru or zgeru for complex numbers and dger or sger
     # for float numbers
@@ -101,8 +101,8 @@ def py_rect_maxvol(
         C = np.asfortranarray(np.hstack([C, l * v.reshape(-1, 1)]))
         row_norm_sqr -= (l * v[:top_k_index] * v[:top_k_index].conj()).real
         row_norm_sqr *= chosen
-        # find maximum value in row_norm_sqr
-        i = row_norm_sqr.argmax()
+        # find maximum value in row_norm_sqr (among rows not chosen yet)
+        i = np.where(chosen > 0, row_norm_sqr, -1.0).argmax()
         K += 1
     # parameter identity_submatrix is True, set submatrix,
     # corresponding to maxvol rows, equal to identity matrix
